@@ -415,6 +415,27 @@ def run(ctx) -> None:
                 ctx.ob("C13.R3-consume-before-execute", n, ok, "_consume set in %s" % q if ok else
                        "_consume is set to a non-False value in %s (only canConsume / Engine.run may decide it)" % q)
 
+    # the sticky flag holds a FINAL verdict: inside canConsume no test of a producer's output can follow a store of a non-False value
+    # (the caller keeps whatever the flag holds when the test raises FilesystemInconsistencyError)
+    cc = eng.func("Engine.canConsume")
+    ctx.analysed(cc)
+    c_cc = CFG(cc)
+    ctx.paths += c_cc.paths_count()
+    scans = [n for n in c_cc.nodes if n.kind == "for" and isinstance(n.ast, ast.For) and "producerInstances" in source.src(n.ast.iter)]
+    ctx.require(bool(scans), "anchor missing: the loop over producerInstances in Engine.canConsume")
+    sets = [n for n in c_cc.nodes if n.kind == "stmt" and isinstance(n.ast, ast.Assign) and any(source.src(t) == "self._consume" for t in n.ast.targets)
+            and not (isinstance(n.ast.value, ast.Constant) and n.ast.value.value is False)]
+    ctx.floor("C13.R3-consume-before-execute", len(sets), 1, "stores of a non-False value into self._consume in Engine.canConsume")
+    for sn in sets:
+        after = c_cc.reach([sn], include_starts=False)
+        ok = not any(l.id in after for l in scans)
+        ctx.ob("C13.R3-consume-before-execute", sn.ast, ok,
+               "_consume is set after the producers were tested (no test of producer output can follow the store)" if ok else
+               "_consume is set to %s BEFORE the producers' working directories are tested: when a listing raises "
+               "FilesystemInconsistencyError the caller keeps the flag ('will assume canConsume=%%s'), the optimistic value sticks and the "
+               "repeating engine executes although no producer has output" % short(sn.ast.value, 20),
+               construct="canConsume: self._consume = <verdict> after the producer scan")
+
     # ---------------- R4 ------------------------------------------------------------------------------
     si = wf.func("ComponentState.stageIn")
     ctx.analysed(si)
